@@ -89,6 +89,10 @@ deriving Repr
 def setSub (s : St) (t : Nat) (u : Sub) : St := { s with subs := upd s.subs t u }
 def setSender (s : St) (a : Nat) (x : Sender) : St := { s with senders := upd s.senders a x }
 
+/-- `ping.Add(-1)` on the caster word (kept opaque to the elaborator: proofs use `subOne_eq`) -/
+@[irreducible] def subOne (w : Nat) : AddOut := add w (-((1 : Nat) : Int))
+theorem subOne_eq (w : Nat) : subOne w = add w (-((1 : Nat) : Int)) := by unfold subOne; rfl
+
 /-- ghost: every subscriber counted in `subscribers` owes one receive-or-remove to the Send that just added them to the caster -/
 def markOwes (s : St) : Nat → Sub := fun t =>
   if (s.subs t).pc = .idle ∨ (s.subs t).pc = .tryFailed ∨ (s.subs t).pc = .sawPing then { s.subs t with owes := true } else s.subs t
@@ -157,8 +161,10 @@ def step (s : St) : Act → Option St
   | .pingSub t =>
     let u := s.subs t
     if u.pc = .decNoLock ∧ s.panicked = false then
-      match add s.word (-1) with
-      | .ok w _ ab => some { setSub s t { u with pc := if ab = 0 then .out else .absorbing, owes := false } with word := w }
+      match subOne s.word with
+      | .ok w _ ab =>
+        if ab = 0 then some { setSub s t { u with pc := .out, owes := false } with word := w }
+        else some { setSub s t { u with pc := .absorbing, owes := false } with word := w }
       | .panic w => some { s with word := w, panicked := true }
     else none
   | .absorb a t =>
